@@ -33,12 +33,16 @@ def step_sig(kind: str, holder: str, hist: List[dict], k: int) -> Dict[str, Any]
                 after=sorted(set(prev)))
 
 
-def replay_history(ctx: Ctx, case: Dict[str, Any], props: Tuple[str, ...] = ("C09",), members: str = "ddf") -> None:
+def replay_history(ctx: Ctx, case: Dict[str, Any], props: Tuple[str, ...] = ("C09",), members: str = "ddf", coarse: bool = False) -> None:
     kind, holder, hist = case["kind"], case["holder"], case["hist"]
     if kind == "SEQ" and members == "ddf":  # the same history on a composite of predicted LINEAR members
         replay_history(ctx, case, props, members="linear")
+    if kind == "DDF" and holder in ("param", "tensor") and not coarse and any(h["a"] == "data_" for h in hist) and not any(h["a"] in ("grid_", "grid") for h in hist):
+        # the same history with the parameters on a coarser grid (the displacement buffer is then a resampled copy, not a view) and with the
+        # "set data" action bound to fit(flow) - the other documented way to replace the parameters
+        replay_history(ctx, case, props, members=members, coarse=True)
     try:
-        w = World(kind, holder, case.get("initver", 0), members=members)
+        w = World(kind, holder, case.get("initver", 0), members=members, ddf_stride=2 if coarse else 1, use_fit=coarse)
     except Exception as ex:
         raise MachineryError(f"cannot construct {kind}/{holder}: {ex}")
     # conditioning arguments are given positionally or by keyword
@@ -67,6 +71,63 @@ def replay_history(ctx: Ctx, case: Dict[str, Any], props: Tuple[str, ...] = ("C0
                               f"{'<not a version: wrong scale/grid>' if obs == GARBAGE else obs}, specification admits {st['obs']} "
                               f"after {[(h['a'], h['o'], h['arg']) for h in hist[:k]]}", case)
                 return
+
+
+def check_generic_inverse(ctx: Ctx) -> None:
+    """Scripted histories on the generic configurable transform with PREDICTED parameters (a callable returning a dict): an inverse - linked
+    or not - evaluates the conditioning it holds at that moment.  (The state machine gives composites no inverse: its composite members are
+    displacement fields; this is the same law on the one composite class that owns a prediction callable itself.)"""
+    import torch
+
+    from deepali.core.grid import Grid
+    from deepali.spatial.generic import GenericSpatialTransform, TransformConfig
+
+    G = Grid(size=(9, 7), spacing=(1.0, 1.5))
+    x = torch.tensor([[[0.3, -0.2], [-0.5, 0.4], [0.0, 0.0]]])
+    for model in ("TR", "T", "TRS"):
+        def pred(c=1.0, model=model):
+            d = {"translation": torch.tensor([[0.1 * c, -0.2 * c]])}
+            if "R" in model:
+                d["rotation"] = torch.tensor([[0.3 * c]])
+            if "S" in model:
+                d["scaling"] = torch.tensor([[1.0 + 0.1 * c, 1.0 - 0.05 * c]])
+            return d
+
+        cfgm = TransformConfig(transform="Affine", affine_model=model, rotation_model="ZXZ")
+
+        def fresh(c):
+            return GenericSpatialTransform(G, params=pred, config=cfgm).condition_(c)
+
+        for link, ub, recond_on in ((False, False, "inverse"), (False, True, "inverse"), (True, False, "original"), (True, True, "original"), (False, False, "none")):
+            sig = dict(kind="GEN", model=model, link=link, ub=ub, recondition=recond_on)
+            case = dict(scenario="generic-inverse", **sig)
+            try:
+                t = fresh(1.0)
+                t(x)
+                inv = t.inverse(link=link, update_buffers=ub)
+                c_now = 1.0
+                if recond_on == "inverse":
+                    inv.condition_(2.0)
+                    c_now = 2.0
+                elif recond_on == "original":
+                    t.condition_(2.0)
+                    t.update()
+                    c_now = 2.0
+                y = fresh(c_now)(x)
+                z = inv(y)
+                err = float((z - x).abs().max())
+                if err > 1e-4:
+                    ctx.violation(dict(**sig, what="stale"), f"GenericSpatialTransform[{model}] with predicted parameters: inverse(link={link}, update_buffers={ub}) evaluated after re-conditioning the "
+                                  f"{recond_on} (c = {c_now}) does not invert the map of that conditioning (off by {err:.3g}): it uses a stale prediction", case)
+                # the original is unaffected by what was done to an unlinked inverse
+                if recond_on == "inverse":
+                    y1 = t(x)
+                    e1 = float((y1 - fresh(1.0)(x)).abs().max())
+                    if e1 > 1e-5:
+                        ctx.violation(dict(**sig, what="original"), f"GenericSpatialTransform[{model}]: re-conditioning an unlinked inverse changed the original (off by {e1:.3g})", case)
+            except Exception as ex:
+                ctx.violation(dict(**sig, exc=type(ex).__name__), f"GenericSpatialTransform[{model}] inverse scenario raised {type(ex).__name__}: {str(ex)[:140]}", case)
+            ctx.count(key=json.dumps(case, sort_keys=True), nontrivial=True)
 
 
 def enumerate_histories(ctx: Ctx, configs, maxobj: int, maxlen: int, label: str, initver: int = 0) -> List[dict]:
@@ -112,6 +173,7 @@ def run(ctx: Ctx) -> None:
         seen.add(key)
         replay_history(ctx, c)
         ctx.count(key=key, nontrivial=any(h["a"] not in ("call", "disp", "update") for h in c["hist"]))
+    check_generic_inverse(ctx)
     ctx.traces = len(seen)
     ctx.notes["exhaustive_histories"] = len(cases)
     ctx.notes["simulated_histories"] = len(sims)
